@@ -1,0 +1,21 @@
+//go:build verif
+
+package rtmp
+
+import "bytes"
+
+// VerifPackCommands returns the bytes MessagePacker writes for the signalling of a client session: Set Chunk Size
+// (LocalChunkSize), connect, createStream and publish (or play) with the given names.
+func VerifPackCommands(appName, tcUrl, streamName string, publish bool) []byte {
+	var w bytes.Buffer
+	p := NewMessagePacker()
+	_ = p.writeChunkSize(&w, LocalChunkSize)
+	_ = p.writeConnect(&w, appName, tcUrl, publish)
+	_ = p.writeCreateStream(&w)
+	if publish {
+		_ = p.writePublish(&w, appName, streamName, Msid1)
+	} else {
+		_ = p.writePlay(&w, streamName, Msid1)
+	}
+	return w.Bytes()
+}
